@@ -1125,8 +1125,29 @@ func closeUnderCall(c *core.Ctx, r *core.Rand, i int) {
 	for k := 0; k < 5000 && len(w.srv.Received()) == before; k++ {
 		time.Sleep(time.Millisecond)
 	}
+	// further callers queue up behind the pending call (they wait for the client's lock)
+	nQueued := i % 3
+	queued := make(chan error, nQueued)
+	for q := 0; q < nQueued; q++ {
+		go func(q int) {
+			ctx, cancel := context.WithTimeout(context.Background(), 3*time.Second)
+			defer cancel()
+			var err error
+			core.Guard(func() { _, err = cl.Activate(fmt.Sprintf("%s-queued%d", label, q)).ExecContext(ctx) })
+			queued <- err
+		}(q)
+	}
+	if nQueued > 0 {
+		time.Sleep(2 * time.Millisecond)
+		c.Count("calls_queued_behind_a_call_at_close", int64(nQueued))
+	}
 	dialsBefore := dials.Load()
 	core.Guard(func() { cl.Close() })
+	for q := 0; q < nQueued; q++ {
+		if err := <-queued; err == nil {
+			c.Violation("C11:call-survives-close:queued", "a call that was waiting for the client when Close() was called returns success although the server never answers ("+label+")", nil)
+		}
+	}
 	var o outcome
 	select {
 	case o = <-done:
@@ -1224,7 +1245,7 @@ func Spec() *core.Spec {
 			"Monitors: panic/crash, own-id response or error, never two consecutive failed calls, <= 4 transmissions per request, calls fail after Close, goroutine census after Close. a response whose frame-completing Read is handed over only when the connection is closed (call abandoned by cancel, deadline or Close); Close() under a pending call on a transport whose Close is slow; a reconnection dial that stalls until the caller's deadline; a write stalling past the caller's deadline; Dial losing its first connection and failing the negotiation on the second; two fault kinds that leave the peer healthy (io.ErrShortWrite; error after complete delivery); distinct = distinct (scenario kind, fault kind, operation index)",
 		Assumptions: []string{"recovery rule used: while the server is reachable and new connections are fault-free, two consecutive calls never both fail (a call pending at, or first after, the fault may fail)",
 			"goroutines gone = none with a library frame within 10 s of closing the client and the server (bounded progress)"},
-		Required: []string{"calls", "give_up_scenarios.closed-after-failed-redials", "context_look_faults_fired.mode0", "context_look_faults_fired.mode1", "context_look_faults_fired.mode2", "reply_with_eof_scenarios.mode0", "reply_with_eof_scenarios.mode1", "reply_with_eof_scenarios.mode2", "late_responses_held", "stalled_writes", "closes_under_a_call", "stalled_redials", "negotiation_reconnects.second-connection-used", "double_faults_both_fired", "faults_fired.read-eof", "faults_fired.read-reset", "faults_fired.write-epipe", "faults_fired.short-write", "faults_fired.short-write-peer-stays", "faults_fired.write-error-after-delivery", "faults_fired.server-closes-after-reply", "faults_fired.server-closes-after-read",
+		Required: []string{"calls", "give_up_scenarios.closed-after-failed-redials", "context_look_faults_fired.mode0", "context_look_faults_fired.mode1", "context_look_faults_fired.mode2", "reply_with_eof_scenarios.mode0", "reply_with_eof_scenarios.mode1", "reply_with_eof_scenarios.mode2", "late_responses_held", "stalled_writes", "closes_under_a_call", "calls_queued_behind_a_call_at_close", "stalled_redials", "negotiation_reconnects.second-connection-used", "double_faults_both_fired", "faults_fired.read-eof", "faults_fired.read-reset", "faults_fired.write-epipe", "faults_fired.short-write", "faults_fired.short-write-peer-stays", "faults_fired.write-error-after-delivery", "faults_fired.server-closes-after-reply", "faults_fired.server-closes-after-read",
 			"census_checks", "calls_after_close", "repeated_drops.k4", "repeated_drops.k5", "dialer_failure_scenarios", "concurrent_scenarios", "directed.terminate-before-send-select", "directed.close-in-flight"},
 		Shards: func(string) int { return 8 },
 		Families: []core.Family{
